@@ -241,7 +241,9 @@ def classify_crash(rc, stderr):
         return 'asan:%s:%s' % (kind, fn)
     m = re.search(r'([^\s:]+):(\d+):\d+: runtime error: (.*)', stderr)
     if m:
-        what = re.sub(r'[^a-z]+', '-', m.group(3).lower())[:40].strip('-')
+        msg = re.sub(r'0x[0-9a-fA-F]+', '', m.group(3).lower())
+        msg = re.sub(r'\b\d+\b', 'n', msg)
+        what = re.sub(r'[^a-z]+', '-', msg)[:40].strip('-')
         return 'ubsan:%s:%s' % (os.path.basename(m.group(1)), what)
     m = re.search(r'Assertion [`\'](.*?)\' failed', stderr)
     if m:
@@ -257,7 +259,7 @@ def classify_crash(rc, stderr):
     return 'exit:%d' % rc
 
 
-def run_lines(exe, lines, env=None, timeout=600, args=()):
+def run_lines(exe, lines, env=None, timeout=600, args=(), max_crashes=200):
     """Pattern A.  Feed `lines` to the driver; return list of
     (index, outline | None, crashkey | None, stderr_excerpt).  After a crash
     the driver is restarted on the remaining cases."""
@@ -302,7 +304,7 @@ def run_lines(exe, lines, env=None, timeout=600, args=()):
         else:
             crashes[done] = (classify_crash(rc, st), st[-6000:])
         start = done + 1
-        if len(crashes) > 200:
+        if len(crashes) > max_crashes:
             break
     return out, crashes
 
@@ -599,3 +601,43 @@ def merge(ctx, results):
             ctx.alarm(k, case, w)
         for k, v in r.get('stats', {}).items():
             ctx.count(k, v)
+
+
+# --------------------------------------------------------------------------
+# Pattern B helper
+# --------------------------------------------------------------------------
+
+def selfgen_shard(a):
+    """a = (exe, seed, first, count[, extra_args[, env]]).  Runs a
+    self-generating driver `exe seed first count ...`, restarting after a
+    crash with the case that crashed skipped.  Result dict like line_shard,
+    alarms carry case = {seed, index, args}."""
+    exe, seed, first, count = a[:4]
+    extra = list(a[4]) if len(a) > 4 and a[4] else []
+    env = a[5] if len(a) > 5 else None
+    timeout = a[6] if len(a) > 6 else 1800
+    res = {'evals': 0, 'sigs': set(), 'alarms': [], 'stats': {}, 'samples': []}
+    done = first
+    guard = 0
+    while done < first + count and guard < 60:
+        guard += 1
+        r = run_selfgen(exe, [str(seed), str(done), str(first + count - done)] + extra,
+                        env=env, timeout=timeout)
+        res['evals'] += r['cases']
+        for s in r['sigs']:
+            res['sigs'].add(int(s, 16))
+        for k, v in r['stats'].items():
+            res['stats'][k] = res['stats'].get(k, 0) + v
+        res['samples'] += r['samples'][:4]
+        for (key, detail, case) in r['viols']:
+            res['alarms'].append((key, {'seed': seed, 'index': int(case) if case else done,
+                                        'args': extra}, detail))
+        if r['crash'] is None:
+            break
+        idx = int(r['lastcase']) if r['lastcase'] is not None else done
+        key, st = r['crash']
+        if not (key.startswith('exit:3') and r['viols']):   # exit 3 = driver already printed a VIOL (hang)
+            res['alarms'].append((key, {'seed': seed, 'index': idx, 'args': extra}, st))
+        res['evals'] = max(0, res['evals'] - 1)
+        done = idx + 1
+    return res
